@@ -179,6 +179,19 @@ func (s *Script) Match(data any) bool {
 	return 0 < len(stack)
 }
 
+// matchWithRoot is Match with $ in the script bound to root, the document,
+// instead of to the data itself.
+func (s *Script) matchWithRoot(data, root any) bool {
+	var ns any
+	if node, ok := data.(gen.Node); ok {
+		ns, _ = s.evalWithRoot([]any{}, gen.Array{node}, root)
+	} else {
+		ns, _ = s.evalWithRoot([]any{}, []any{data}, root)
+	}
+	stack, _ := ns.([]any)
+	return 0 < len(stack)
+}
+
 // Eval is primarily used by the Expr parser but is public for testing.
 func (s *Script) Eval(stack, data any) any {
 	ns, _ := s.evalWithRoot(stack, data, nil)
